@@ -17,7 +17,7 @@ from pathlib import Path
 
 VERIF = Path(__file__).resolve().parents[1]
 sys.path.insert(0, str(VERIF))
-from translate.resolve import Flow, helper_inliner as generic_inliner      # noqa: E402
+from translate.resolve import Flow, own_returns, helper_inliner as generic_inliner, parse_source      # noqa: E402
 REPO = Path(os.environ.get('HOMONIM_REPO', '/repo'))
 OUT = VERIF / 'coq' / 'gen' / 'Blocks.v'
 
@@ -176,7 +176,8 @@ def block_pairs_part(rp, out):
     W = wins.pop()
     ov_txt = canon(U(fl.resolve(ast.Name(id=ov_p, ctx=ast.Load()), prod[0])))
     bs_txts = {canon(U(n)) for r in rngs for n in ast.walk(r) if isinstance(n, ast.Call) and U(n.func) == 'self._auto_block_shape'}
-    if len(bs_txts) != 1 or bs_txts != {f'self._auto_block_shape(max_block_mem={mem_p})'}:
+    # (further keyword arguments that default to today's behaviour may be handed on)
+    if len(bs_txts) != 1 or not next(iter(bs_txts)).startswith(f'self._auto_block_shape(max_block_mem={mem_p}'):
         raise TranslatorError(f'block_pairs: block shape {bs_txts}')
     bs_txt = bs_txts.pop()
     rng = []
@@ -421,11 +422,11 @@ SIG = '(u bs ov lo hi : Z)'
 
 def generate():
     out = []
-    rp = ast.parse((REPO / 'homonim' / 'raster_pair.py').read_text())
-    ut = ast.parse((REPO / 'homonim' / 'utils.py').read_text())
-    fu = ast.parse((REPO / 'homonim' / 'fuse.py').read_text())
-    cm = ast.parse((REPO / 'homonim' / 'compare.py').read_text())
-    ra = ast.parse((REPO / 'homonim' / 'raster_array.py').read_text())
+    rp = parse_source((REPO / 'homonim' / 'raster_pair.py').read_text())
+    ut = parse_source((REPO / 'homonim' / 'utils.py').read_text())
+    fu = parse_source((REPO / 'homonim' / 'fuse.py').read_text())
+    cm = parse_source((REPO / 'homonim' / 'compare.py').read_text())
+    ra = parse_source((REPO / 'homonim' / 'raster_array.py').read_text())
     block_pairs_part(rp, out)
     overlap_part(ut, fu, cm, out)
     bounded_part(ra, out)
@@ -447,7 +448,7 @@ def generate():
     okv = suf == "['gain'] * n_refl_bands + ['offset'] * n_refl_bands + ['r2'] * n_refl_bands" and nr == 'int(param_im.count / 3)'
     out.append(f'Definition gen_validator_ok : bool := {"true" if okv else "false"}.     (* suffix of 0-based band j is parameter j / n *)')
     # ---- partial masking: coverage threshold, structuring element, border
-    km = ast.parse((REPO / 'homonim' / 'kernel_model.py').read_text())
+    km = parse_source((REPO / 'homonim' / 'kernel_model.py').read_text())
     f = find_func(km, 'KernelModel', '_full_coverage_mask')
     fl = Flow(f, module=km)
     in_p, par_p = fl.params[1], fl.params[2]
@@ -477,27 +478,72 @@ def generate():
     oke = ekw == {'borderType': 'cv.BORDER_CONSTANT', 'borderValue': '0'} and isinstance(m, ast.BinOp) and isinstance(m.op, ast.BitAnd)
     if oke:
         parts = sorted([canon(U(m.left)), canon(U(m.right))], key=lambda t: t.startswith('('))
-        cov_ok = parts[1].startswith(f'({ret}.array >= 1).astype(') and ("'uint8'" in parts[1] or 'np.uint8' in parts[1])
+        cov_ok = parts[1].startswith(f'({ret}.array >= 1).astype(') and ("'uint8'" in parts[1] or 'np.uint8' in parts[1] or 'uint8' in parts[1])
         oke = parts[0] == f'{par_p}.mask' and cov_ok and \
             ret == f'{in_p}.reproject(**{par_p}.proj_profile, nodata=None, resampling=Resampling.average)'
     out.append(f'Definition gen_partial_mask_ok : bool := {"true" if oke else "false"}.   (* average coverage >= 1, and joint mask, zero border *)')
     # ---- RasterArray._convert_array_dtype: round (half to even), clip, cast, re-mask - in that order, under these conditions
     f = find_func(ra, 'RasterArray', '_convert_array_dtype')
-    ifs = {ast.unparse(n.test): n for n in ast.walk(f) if isinstance(n, ast.If)}
-    c_round = 'unsafe_cast and np.issubdtype(self.dtype, np.floating) and np.issubdtype(dtype, np.integer)'
-    c_clip = 'unsafe_cast and np.issubdtype(dtype, np.integer)'
-    c_rng = 'src_info.min < dst_info.min or src_info.max > dst_info.max'
-    # (the re-masking condition may be written in several equivalent ways; what matters: it happens whenever the nodata value changes, after the cast)
-    nod = [n for t, n in ifs.items() if 'nodata_change' in t and [ast.unparse(x) for x in n.body] == ['array[~self.mask] = nodata']]
-    okd = all(c in ifs for c in (c_round, c_clip, c_rng)) and len(nod) == 1
-    if okd:
-        c_nod = ast.unparse(nod[0].test)
-        okd = [ast.unparse(x) for x in ifs[c_round].body] == ['np.round(array, out=array)'] \
-            and [ast.unparse(x) for x in ifs[c_rng].body] == ['np.clip(array, dst_info.min, dst_info.max, out=array)'] \
-            and ast.unparse(one_assign(f, 'unsafe_cast')) == "not np.can_cast(self.dtype, dtype, casting='safe')" \
-            and ast.unparse(one_assign(f, 'nodata_change')) == 'nodata is not None and (not utils.nan_equals(nodata, self.nodata))'
-        cast = [n.lineno for n in ast.walk(f) if isinstance(n, ast.Assign) and ast.unparse(n.value) == "array.astype(dtype, copy=False, casting='unsafe')"]
-        okd = okd and len(cast) == 1 and ifs[c_round].lineno < ifs[c_clip].lineno < cast[0] < ifs[c_nod].lineno
+    # (on resolved path conditions: local names, a record of the steps computed by a helper method, etc. all stand for what they were assigned)
+    fl = Flow(f, module=ra, inline=generic_inliner(ra, 'RasterArray'))
+    UNSAFE = "not np.can_cast(self.dtype, dtype, casting='safe')"
+    NODCH = 'nodata is not None and (not utils.nan_equals(nodata, self.nodata))'
+    SRCINFO = '(np.iinfo(self.dtype) if np.issubdtype(self.dtype, np.integer) else np.finfo(self.dtype))'
+    c_round = f'{UNSAFE} and np.issubdtype(self.dtype, np.floating) and np.issubdtype(dtype, np.integer)'
+    c_clip = f'{UNSAFE} and np.issubdtype(dtype, np.integer)'
+    c_rng = f'{SRCINFO}.min < np.iinfo(dtype).min or {SRCINFO}.max > np.iinfo(dtype).max'
+    entry = ('nodata is not None and (not rio.dtypes.can_cast_dtype(nodata, dtype))', False)      # (raises otherwise)
+
+    def gd(st):
+        return [g_ for g_ in fl.guards(st, raises=True) if g_ != entry]
+    def remask_cond_ok(gs):
+        """truth table over (a nodata value is given, it equals the current one, the cast is unsafe): the invalid pixels are re-written whenever the
+        nodata value changes, and never without a nodata value"""
+        import itertools
+        atoms = {'nodata is not None': lambda a, e, u: a, 'nodata is None': lambda a, e, u: not a, 'utils.nan_equals(nodata, self.nodata)': lambda a, e, u: e,
+                 "np.can_cast(self.dtype, dtype, casting='safe')": lambda a, e, u: not u}
+
+        def ev(n, v):
+            t = U(n)
+            if t in atoms:
+                return atoms[t](*v)
+            if isinstance(n, ast.UnaryOp) and isinstance(n.op, ast.Not):
+                return not ev(n.operand, v)
+            if isinstance(n, ast.BoolOp):
+                vals = [ev(x, v) for x in n.values]
+                return all(vals) if isinstance(n.op, ast.And) else any(vals)
+            raise TranslatorError(f'_convert_array_dtype: re-masking condition {t[:120]}')
+        try:
+            for v in itertools.product((False, True), repeat=3):
+                g = all(ev(ast.parse(t_, mode='eval').body, v) == pol_ for t_, pol_ in gs)
+                if (v[0] and not v[1] and not g) or (g and not v[0]):
+                    return False
+            return bool(gs)
+        except TranslatorError:
+            return False
+    pos = {id(st): i for i, st in enumerate(fl.order)}
+    step = {}
+    for st in fl.order:
+        if isinstance(st, ast.Expr) and isinstance(st.value, ast.Call):
+            t = fl.text(st.value, st)
+            if t == 'np.round(array, out=array)' and gd(st) == [(c_round, True)]:
+                step.setdefault('round', []).append(pos[id(st)])
+            elif t == 'np.clip(array, np.iinfo(dtype).min, np.iinfo(dtype).max, out=array)' and gd(st) in ([(c_clip, True), (c_rng, True)], [(f'{c_clip} and ({c_rng})', True)]):
+                step.setdefault('clip', []).append(pos[id(st)])
+            elif 'array' in t and ('out=' in t or '.fill(' in t or '.sort(' in t):
+                step.setdefault('other', []).append(pos[id(st)])
+        elif isinstance(st, ast.Assign) and U(fl.value(st)) == "array.astype(dtype, copy=False, casting='unsafe')" and not gd(st):
+            step.setdefault('cast', []).append(pos[id(st)])
+    for (st, t, kind, v) in fl.stores():
+        if kind == 'assign' and t.endswith('[~self.mask]') and U(v) == 'nodata':
+            g_ = gd(st)
+            # (the re-masking condition may be written in several equivalent ways; what matters: it happens whenever the nodata value changes)
+            if remask_cond_ok(g_):
+                step.setdefault('remask', []).append(pos[id(st)])
+        elif kind in ('assign', 'aug') and t.startswith('array'):
+            step.setdefault('other', []).append(pos[id(st)])
+    okd = all(len(step.get(k_, [])) == 1 for k_ in ('round', 'clip', 'cast', 'remask')) and 'other' not in step \
+        and step['round'][0] < step['clip'][0] < step['cast'][0] < step['remask'][0]
     out.append(f'Definition gen_convert_dtype_ok : bool := {"true" if okd else "false"}.   (* rint, saturate, cast, invalid := nodata *)')
     # ---- utils.same_orientation_crs: which image is viewed through a WarpedVRT, as boolean functions of
     #      (source north-up, reference north-up, same CRS, processing grid = source)
@@ -537,21 +583,16 @@ def generate():
             who = 'src' if U(st.targets[0]) == sI else 'ref'
             crs_of = 'src' if kwv['crs'] == f'{sI}.crs' else 'ref'
             act = f'{who}_flip' if who == crs_of else f'{who}_to_{crs_of}_crs'
-            conds = []
-            for node in [n for n in ast.walk(f) if isinstance(n, ast.If)]:
-                in_body = any(st is m for b_ in node.body for m in ast.walk(b_))
-                in_else = any(st is m for b_ in node.orelse for m in ast.walk(b_))
-                if in_body or in_else:
-                    c = btr(fl.resolve(node.test, node))
-                    conds.append(c if in_body else f'(negb {c})')
+            # (path conditions: enclosing ifs and earlier `if c: return`)
+            conds = [btr(t_) if pol_ else f'(negb {btr(t_)})' for t_, pol_ in fl.guard_nodes(st)]
             if act in seen or not conds:
                 raise TranslatorError(f'same_orientation_crs: action {act}')
             seen[act] = conds[0] if len(conds) == 1 else '(' + ' && '.join(conds) + ')'
     if sorted(seen) != ['ref_flip', 'ref_to_src_crs', 'src_flip', 'src_to_ref_crs']:
         raise TranslatorError(f'same_orientation_crs: actions {sorted(seen)}')
     # the two flips come before the two changes of coordinate system
-    rets = [n for n in ast.walk(f) if isinstance(n, ast.Return)]
-    if len(rets) != 1 or U(rets[0].value) not in (f'({sI}, {rI})', f'{sI}, {rI}'):
+    rets = own_returns(f)
+    if not rets or any(r_.value is None or U(r_.value) not in (f'({sI}, {rI})', f'{sI}, {rI}') for r_ in rets):
         raise TranslatorError('same_orientation_crs: returns')
     for k2 in ('src_flip', 'ref_flip', 'src_to_ref_crs', 'ref_to_src_crs'):
         out.append(f'Definition gen_vrt_{k2} (snu rnu same psrc : bool) : bool := {seen[k2]}.')
@@ -560,7 +601,7 @@ def generate():
     okc = ast.unparse(one_assign(f, 'corr_profile')) == 'utils.combine_profiles(self.src_im.profile, out_profile)'
     out.append(f'Definition gen_corr_profile_from_source_view : bool := {"true" if okc else "false"}.')
     # ---- band matching constants: the 10 % tolerance and the standard RGB centre wavelengths, as exact binary64 literals
-    mp = ast.parse((REPO / 'homonim' / 'matched_pair.py').read_text())
+    mp = parse_source((REPO / 'homonim' / 'matched_pair.py').read_text())
     cls = [n for n in mp.body if isinstance(n, ast.ClassDef) and n.name == 'MatchedPairReader'][0]
     tol = [n.value for n in cls.body if isinstance(n, ast.Assign) and ast.unparse(n.targets[0]) == '_max_rel_wavelength_diff']
     if len(tol) != 1 or not isinstance(tol[0], ast.Constant):
@@ -598,12 +639,46 @@ def generate():
     # the over-tolerance test: strictly greater than the tolerance, on the matched distances
     fm = find_func(mp, 'MatchedPairReader', '_match_pair_bands')
     over = [ast.unparse(n.test) for n in ast.walk(fm) if isinstance(n, ast.If) and '_max_rel_wavelength_diff' in ast.unparse(n.test)]
-    out.append('Definition gen_over_tolerance_is_strict_any : bool := %s.' % ('true' if over == ['any(match_dist > MatchedPairReader._max_rel_wavelength_diff)'] else 'false'))
-    flm = Flow(fm)
-    # the distance matrix handed to the greedy matcher: |src - ref| / src
+    out.append('Definition gen_over_tolerance_is_strict_any : bool := %s.' % ('true' if over in (
+        ['any(match_dist > MatchedPairReader._max_rel_wavelength_diff)'], ['np.any(match_dist > MatchedPairReader._max_rel_wavelength_diff)']) else 'false'))
+    flm = Flow(fm, module=mp)
+    # the distance matrix handed to the greedy matcher: |src - ref| / src.  The two wavelength vectors are whatever the third component of
+    # _get_band_info(<source image>, ..) / _get_band_info(<reference image>, ..) is called here: unpacked into a name, or a field of a record
+    gi = find_func(mp, 'MatchedPairReader', '_get_band_info')
+    gi_rets = own_returns(gi)
+    third = None
+    if len(gi_rets) == 1 and isinstance(gi_rets[0].value, ast.Call) and isinstance(gi_rets[0].value.func, ast.Name) and gi_rets[0].value.func.id in flm.tuples \
+            and len(flm.tuples[gi_rets[0].value.func.id]) == 3:
+        third = flm.tuples[gi_rets[0].value.func.id][2]
+    wl = {}
+    for st in ast.walk(fm):
+        if isinstance(st, ast.Assign) and len(st.targets) == 1 and isinstance(st.value, ast.Call) and U(st.value.func).endswith('_get_band_info') and st.value.args:
+            who = 'SRCWL' if U(st.value.args[0]).startswith('src') else 'REFWL' if U(st.value.args[0]).startswith('ref') else None
+            tg = st.targets[0]
+            if who and isinstance(tg, ast.Tuple) and len(tg.elts) == 3:
+                wl[U(tg.elts[2])] = who
+            elif who and isinstance(tg, ast.Name):
+                for base in (tg.id, U(st.value), flm.text(st.value, st)):
+                    wl[f'{base}[2]'] = who
+                    if third:
+                        wl[f'{base}.{third}'] = who
     gcall = [c for c in ast.walk(fm) if isinstance(c, ast.Call) and ast.unparse(c.func) in ('greedy_match', 'self._greedy_match', 'MatchedPairReader._greedy_match') and c.args]
-    rd = flm.text(gcall[0].args[0], flm.stmt_of(gcall[0])) if len(gcall) == 1 else ''
-    okrd = rd in ('np.abs(src_wavelengths[:, np.newaxis] - ref_wavelengths[np.newaxis, :]) / src_wavelengths[:, np.newaxis]',)
+    okrd = False
+    if len(gcall) == 1:
+        class Canon(ast.NodeTransformer):
+            def visit_Call(self, n):
+                n = self.generic_visit(n)
+                if U(n.func) == 'np.subtract.outer' and len(n.args) == 2 and not n.keywords:     # (of two vectors)
+                    return ast.parse(f'({U(n.args[0])})[:, np.newaxis] - ({U(n.args[1])})[np.newaxis, :]', mode='eval').body
+                return n
+
+            def generic_visit(self, n):
+                n = super().generic_visit(n)
+                if isinstance(n, (ast.Name, ast.Attribute, ast.Subscript)) and U(n) in wl:
+                    return ast.Name(id=wl[U(n)], ctx=ast.Load())
+                return n
+        rd = U(Canon().visit(flm.resolve(gcall[0].args[0], flm.stmt_of(gcall[0]))))
+        okrd = rd == 'np.abs(SRCWL[:, np.newaxis] - REFWL[np.newaxis, :]) / SRCWL[:, np.newaxis]'
     out.append('Definition gen_rel_dist_by_source : bool := %s.' % ('true' if okrd else 'false'))
     return out
 
